@@ -636,6 +636,44 @@ let run_case (fn : string) : unit =
       pr_list pr_sval n.n_keys;
       pr_list pr_cval_row n.n_vals;
       pr_list (function None -> pr "-" | Some b -> pr_bytes b) n.n_links
+  | "schema" | "targs" | "sqlc" ->
+      let rd_ctok () = match next () with
+        | "n" -> KName (rd_bytes ()) | "t" -> KType (rd_bytes ())
+        | "pk" -> KPrimaryKey | "nn" -> KNotNull | "uq" -> KUnique
+        | "," -> KComma | "(" -> KLParen | ")" -> KRParen | "o" -> KOther
+        | s -> failwith ("bad_ctok_" ^ s) in
+      let pr_decl (d : decl) =
+        pr_bytes d.d_text; pr_z d.d_keycol; pr_bool d.d_rowid in
+      if fn = "schema" then
+        (match convert_schema (rd_list rd_ctok) with
+         | Some d -> pr "ok"; pr_decl d
+         | None -> pr "err")
+      else begin
+        let args = rd_list (fun () ->
+          let k = rd_z () in
+          let v = (match next () with
+            | "cols" -> OVCols (rd_list rd_ctok)
+            | "int" -> OVInt (rd_bool ())
+            | "text" -> OVText
+            | "none" -> OVNone
+            | s -> failwith ("bad_optval_" ^ s)) in
+          (k, v)) in
+        match table_args args with
+        | ArgOK (d, ro) ->
+            if fn = "targs" then (pr "ok"; pr_bool ro; pr_decl d)
+            else begin
+              (* specification view: the columns as specified, for PRAGMA table_info *)
+              pr "ok"; pr "|"; pr "TI";
+              let key = if d.d_rowid then None else Stdlib.List.nth_opt d.d_cols (int_of_z d.d_keycol) in
+              pr_list (fun (c : col) ->
+                pr_bytes c.c_name; pr_bytes (match c.c_type with Some t -> t | None -> []);
+                (* the key of a WITHOUT ROWID table is NOT NULL by definition *)
+                let is_key = (match key with Some kc -> kc.c_name = c.c_name | None -> false) in
+                pr_bool (c.c_notnull || is_key);
+                pr_bool is_key) d.d_cols
+            end
+        | ArgErr -> pr "err"
+      end
   | "crypto" ->
       (* the primitives' results come with the case; a primitive called with other arguments than
          the ones the table was made for answers with a value that cannot match *)
